@@ -19,7 +19,9 @@ git -C $M/repo reset -q --hard
 git -C $M/repo clean -qfd
 if [ "$patch" != none ]; then git -C $M/repo apply "$patch"; fi
 case "$id" in C18|c18) hd=harness-async; bin=va ;; C19|c19) hd=harness-udp; bin=vudp ;; *) hd=harness; bin=vq ;; esac
-for d in harness comp codec $hd; do
+extra=""
+case "$id" in C17|c17) extra=harness-async ;; esac
+for d in harness comp codec $hd $extra; do
   [ -d /verif/$d ] || continue
   mkdir -p $M/$d
   rsync -a --delete --exclude target /verif/$d/ $M/$d/
@@ -27,6 +29,7 @@ for d in harness comp codec $hd; do
     [ -f $f ] && sed -i "s#/repo/#$M/repo/#g; s#/verif/#$M/#g" $f
   done
 done
+if [ -n "$extra" ]; then (cd $M/$extra && CARGO_NET_OFFLINE=true cargo build --offline -q --bin va 2>$M/build.log) || { tail -30 $M/build.log; echo "MUTANT-BUILD-FAILED"; exit 3; }; export VERIF_VA_BIN=$M/$extra/target/debug/va; fi
 cd $M/$hd
 CARGO_NET_OFFLINE=true cargo build --offline -q --bin $bin 2>$M/build.log || { tail -30 $M/build.log; echo "MUTANT-BUILD-FAILED"; exit 3; }
 VERIF_OUT=$M/out ./target/debug/$bin "$(echo $id | tr A-Z a-z)" "$@"
